@@ -164,7 +164,14 @@ func runGCS(c *GCSCase) (fs []finding) {
 		f    *gcs.Filter
 	}{{"built", f}}
 	if raw != nil {
-		if g, err := gcs.FromBytes(f.N(), f.P(), c.M, raw); err != nil {
+		// deserialised from a receive buffer that the caller then re-uses: the
+		// filter must own its data
+		scratch := append([]byte(nil), raw...)
+		g, err := gcs.FromBytes(f.N(), f.P(), c.M, scratch)
+		for i := range scratch {
+			scratch[i] ^= 0xa5
+		}
+		if err != nil {
 			fail("gcs/roundtrip", "FromBytes(Bytes()) failed: %v", err)
 		} else {
 			filters = append(filters, struct {
@@ -174,7 +181,12 @@ func runGCS(c *GCSCase) (fs []finding) {
 		}
 	}
 	if nb != nil {
-		if g, err := gcs.FromNBytes(f.P(), c.M, nb); err != nil {
+		scratch := append([]byte(nil), nb...)
+		g, err := gcs.FromNBytes(f.P(), c.M, scratch)
+		for i := range scratch {
+			scratch[i] ^= 0xa5
+		}
+		if err != nil {
 			fail("gcs/roundtrip", "FromNBytes(NBytes()) failed: %v", err)
 		} else {
 			filters = append(filters, struct {
@@ -314,7 +326,7 @@ func checkGCS(r *ev.Run, bounds map[string]interface{}) {
 		"keys":              len(gcsKeys),
 		"query_subsets":     64,
 		"query_orders":      2,
-		"filters_per_case":  "built, FromBytes, FromNBytes",
+		"filters_per_case":  "built, FromBytes, FromNBytes (the latter two from a buffer that is overwritten right after the call)",
 		"matchers_per_case": "Match, MatchAny, ZipMatchAny, HashMatchAny",
 	}
 }
